@@ -52,7 +52,7 @@ class Ref(object):
     # -- helpers
     def _ch(self, ch):
         if isinstance(ch, bytes):
-            ch = ch.decode('latin-1')
+            ch = ch.decode(CFG['enc'], CFG['errors'])
         return ch[0]
 
     def _home(self, r, c):
@@ -214,9 +214,29 @@ def row_sharing(s):
     return tuple(out) if any(o != i for i, o in enumerate(out)) else ()
 
 
-def make_impl(rows, cols, state, sharing=()):
+CFG = {'enc': 'latin-1', 'errors': 'replace'}        # screen encoding of the running task (one task per worker at a time)
+
+
+def new_screen(rows, cols):
     from pexpect import screen
-    s = screen.screen(rows, cols)
+    return screen.screen(rows, cols, encoding=CFG['enc'], encoding_errors=CFG['errors'])
+
+
+def undecodable(op):
+    """Does the operation carry a bytes character that the task's (strict) encoding cannot decode?"""
+    if CFG['errors'] != 'strict':
+        return False
+    for x in op[1:]:
+        if isinstance(x, bytes):
+            try:
+                x.decode(CFG['enc'])
+            except UnicodeDecodeError:
+                return True
+    return False
+
+
+def make_impl(rows, cols, state, sharing=()):
+    s = new_screen(rows, cols)
     g, s.cur_r, s.cur_c, s.cur_saved_r, s.cur_saved_c, s.scroll_row_start, s.scroll_row_end = state
     s.w = [list(row) for row in g]
     for i, j in enumerate(sharing):
@@ -246,6 +266,12 @@ def ops_for(rows, cols, chars):
         for c in dc:
             ops.append(('insert_abs', r, c, chars[0]))
             ops.append(('cursor_home', r, c))
+    for ch in chars[1:]:
+        for (r, c) in ((1, 1), (rows, cols), (rows, 1)):
+            ops.append(('insert_abs', r, c, ch))
+    for ch in chars[:-1]:
+        ops.append(('fill_region', 1, 1, rows, cols, ch))
+        ops.append(('fill', ch))
     ops.append(('cursor_force_position', rows, 1))
     ops.append(('cursor_home',))
     ops.append(('fill', chars[0]))
@@ -331,7 +357,10 @@ def tasks(tier):
          dict(rows=2, cols=2, chars=['a'], depth=None),
          dict(rows=2, cols=3, chars=['a', b'b'], depth=3 if q else 4),
          dict(rows=3, cols=2, chars=['a', b'b'], depth=3 if q else 4),
-         dict(rows=3, cols=4, chars=['a', b'b'], depth=2 if q else 4)]
+         dict(rows=3, cols=4, chars=['a', b'b'], depth=2 if q else 4),
+         # a multi-byte encoding: bytes characters longer than one byte; with strict errors an undecodable one
+         dict(rows=2, cols=3, chars=['a', b'\xe2\x95\x94'], depth=2 if q else 3, enc='utf-8'),
+         dict(rows=2, cols=3, chars=['a', b'\xff', b'\xc3\xa9'], depth=2 if q else 3, enc='utf-8', errors='strict')]
     if not q:
         t += [dict(rows=4, cols=5, chars=['a', b'b'], depth=3),
               dict(rows=3, cols=3, chars=['a', 'b'], depth=4),
@@ -349,6 +378,20 @@ def step(rows, cols, st, op, sharing=()):
     (new_state or None, violation or None, changed, row sharing after the step)."""
     s = make_impl(rows, cols, st, sharing)
     ref = Ref(rows, cols, st)
+    if undecodable(op):
+        # a character the strict encoding rejects: the operation fails, and a failed operation changes nothing
+        try:
+            getattr(s, op[0])(*op[1:])
+            return None, ('not-rejected', 'operation %r with an undecodable character did not raise' % (op,)), False, ()
+        except UnicodeDecodeError:
+            pass
+        except Exception as e:
+            return None, ('raised', 'operation %r raised %r' % (op, e)), False, ()
+        got = impl_state(s) if shape_ok(s, rows, cols) else ('shape', repr(s.w))
+        if got != st:
+            return None, ('failed-op-changed-screen', 'operation %r was rejected (undecodable character) but changed the screen: %r -> %r'
+                          % (op, st, got)), True, ()
+        return st, None, False, row_sharing(s)
     try:
         read_all(s)      # a read earlier in the history must not change what a later read reports
         getattr(s, op[0])(*op[1:])
@@ -377,6 +420,7 @@ def run_task(task):
     os.chdir('/verif/.scratch')
     acc = Acc()
     rows, cols = task['rows'], task['cols']
+    CFG.update(enc=task.get('enc', 'latin-1'), errors=task.get('errors', 'replace'))
     ops = ops_for(rows, cols, task['chars'])
     accs = accessors(rows, cols)
     init = (Ref(rows, cols).state(), ())
@@ -459,17 +503,33 @@ def path_to(parent, st):
 def replay(spec):
     """Replays the history on ONE live screen object (no snapshot/restore)."""
     from mc.explore import unjson
-    from pexpect import screen
     spec = unjson(spec)
     os.makedirs('/verif/.scratch', exist_ok=True)
     os.chdir('/verif/.scratch')
     task = spec['task']
     rows, cols = task['rows'], task['cols']
-    s = screen.screen(rows, cols)
+    CFG.update(enc=task.get('enc', 'latin-1'), errors=task.get('errors', 'replace'))
+    s = new_screen(rows, cols)
     ref = Ref(rows, cols)
     out = {'violation': None, 'trace': []}
     hist = [tuple(op) for op in spec['history']]
     for i, op in enumerate(hist):
+        if undecodable(op):
+            before = impl_state(s)
+            try:
+                getattr(s, op[0])(*op[1:])
+                out['violation'] = {'key': '%s:not-rejected' % op[0], 'msg': 'did not raise'}
+                return out
+            except UnicodeDecodeError:
+                pass
+            except Exception as e:
+                out['violation'] = {'key': '%s:raised' % op[0], 'msg': repr(e)}
+                return out
+            got = impl_state(s) if shape_ok(s, rows, cols) else ('shape', repr(s.w))
+            if got != before:
+                out['violation'] = {'key': '%s:failed-op-changed-screen' % op[0], 'msg': '%r -> %r' % (before, got)}
+                return out
+            continue
         try:
             if i == len(hist) - 1:
                 read_all(s)
